@@ -59,6 +59,8 @@ func NewEnv() (*Env, error) {
 	if err != nil {
 		return nil, err
 	}
+	// SCAN in small pages with MATCH applied afterwards (empty pages before the end), as a grown redis does
+	s.SetScanPage(3)
 	e := &Env{Srv: s}
 	addr := s.Addr()
 	e.Pool = &redigo.Pool{
